@@ -371,10 +371,20 @@ class DisplayOracle:
             if self.relaxed:
                 self._check_tokens()
                 return
-            self.violate("screen", "screen-mismatch", "after write #%d (%s thread, op %r) the screen is %s; allowed: %s" % (
-                self.writes, "client" if is_client else "helper", self.op,
-                _show(self.actual(len(self.committed), True)),
-                " | ".join(_show(self.expected(c, f)) for c, f, _, _ in outs[:4])))
+            act = self.actual(len(self.committed), True)
+            note = ""
+            for c, f, _, _ in outs:
+                e = self.expected(c, f)
+                if _show(e, 10 ** 6) == _show(act, 10 ** 6):
+                    i = next((i for i, (x, y) in enumerate(zip(e, act)) if x != y), None)
+                    if i is not None:
+                        j = next((j for j, (x, y) in enumerate(zip(e[i], act[i])) if x != y), min(len(e[i]), len(act[i])))
+                        note = " (same characters; styles differ in row %d at cell %d: screen %r, expected %r)" % (
+                            i, j, act[i][j:j + 1], e[i][j:j + 1])
+                    break
+            self.violate("screen", "screen-mismatch", "after write #%d (%s thread, op %r) the screen is %s; allowed: %s%s" % (
+                self.writes, "client" if is_client else "helper", self.op, _show(act),
+                " | ".join(_show(self.expected(c, f)) for c, f, _, _ in outs[:4]), note))
             return
         c, f, note, adv = matched
         self._adopt(c, f, note)
